@@ -396,6 +396,10 @@ fn judge(rep: &Reporter, c: &Case) -> bool {
             let key = if !answer_ok { "downgrade:starttls-refused" } else if c.hs != Handshake::Normal { "downgrade:handshake-failed" } else { "untrusted-certificate-accepted" };
             bad(key, format!("a usable handle was returned although {}", why));
         }
+        // cleartext after the StartTLS response, before the handshake: the property asks that it is
+        // never interpreted inside the protected session; going on without it and giving up the
+        // establishment both satisfy that
+        (Err(_), true) if matches!(c.answer, Answer::Rc0PlusForgedFrame | Answer::Rc0PlusForgedPrefix) => {}
         (Err(e), true) => {
             bad("valid-setup-rejected", format!("establishment failed with {} although everything is in order", e));
         }
